@@ -311,6 +311,23 @@ def c06_batches(seed, tier):
                             rng.shuffle(rnd)
                             sub = "pad" if dzsrc == "global" else ""
                             batches.append({"cfg": cfg, "cfgmode": "literal", "sub": sub, "walks": [up, down, rnd]})
+    # dead-zones from different sources side by side in one mapping: an axis with its own dead-zone (smaller and larger
+    # than the handler's default), axes that fall back to the handler's default, and - on another handler - one that falls
+    # back to the global default, which differs from both
+    for mn, mx in ((-128, 127), (0, 255)):
+        ax = {"ABS_X": axis("cc", cc=20, dzn=0, dzd=1, dzsrc="specific"),
+              "ABS_Y": axis("cc", cc=21, dzn=1, dzd=10, dzsrc="handler"),
+              "ABS_Z": axis("cc", cc=22, dzn=1, dzd=4, dzsrc="specific"),
+              "ABS_RX": axis("pitch_bend", off=2, dzn=1, dzd=10, dzsrc="handler"),
+              "ABS_RY": axis("cc", cc=23, ccNeg=24, bidi=True, dzn=0, dzd=1, dzsrc="specific", centre=(mn == 0)),
+              "Other:ABS_RZ": axis("cc", cc=25, dzn=3, dzd=10, dzsrc="global")}
+        info = {a: {"min": mn, "max": mx} for a in ax}
+        cfg = base_cfg(dChan=rng.randrange(16), maps=[{"name": "M1", "keys": {}, "axes": ax}], axinfo=info)
+        walks = []
+        for a in sorted(ax):
+            vals = list(range(mn, mx + 1, 3)) + [mx]
+            walks.append([{"ev": "axis", "a": a, "raw": v} for v in vals if not on_float_boundary(info[a], ax[a], v)])
+        batches.append({"cfg": cfg, "cfgmode": "literal", "sub": "pad", "walks": walks})
     # two handlers of one device deliver the same axis code (a stick and a touchpad both reporting ABS_X / ABS_Y): each has
     # its own mapping entry, its own controller and its own memory of the last value - the reports are interleaved, the
     # same raw value often arriving on one right after the other
@@ -390,6 +407,23 @@ def c07_batches(seed, tier):
                         w.append({"ev": "release", "k": "KEY_F9"})
                     walks.append(w)
                 batches.append({"cfg": cfg, "cfgmode": "literal", "sub": "", "walks": walks})
+    # two handlers of one device, the same axis code, each with its own pair of controllers: the same value often arrives
+    # on one right after the other, as a crossing of the centre
+    for flip in (False, True):
+        ax = {"ABS_X": axis("cc", cc=50, ccNeg=51, off=0, offNeg=1, bidi=True, flip=flip, dzn=0, dzd=1),
+              "Second:ABS_X": axis("cc", cc=52, ccNeg=53, off=2, offNeg=3, bidi=True, flip=flip, dzn=0, dzd=1)}
+        info = {a: {"min": -128, "max": 127} for a in ax}
+        cfg = base_cfg(dChan=rng.randrange(16), maps=[{"name": "M1", "keys": {}, "axes": ax}], axinfo=info)
+        walks = []
+        for _ in range(4 if tier == "quick" else 20):
+            w = []
+            for _ in range(100):
+                v = rng.choice([-128, 127, 90, -90, 40, -40, 0])
+                order = rng.sample(sorted(ax), 2)
+                w.append({"ev": "axis", "a": order[0], "raw": v})
+                w.append({"ev": "axis", "a": order[1], "raw": rng.choice([v, v, -v if v != -128 else 127])})
+            walks.append(w)
+        batches.append({"cfg": cfg, "cfgmode": "literal", "sub": "", "walks": walks})
     # back-pressure on the MIDI output (the application's channel has 8 slots, a port can be slow): a one-slot channel
     # with a reader that takes 200 us per message - every message still has to arrive, the zero for the side left too
     for flip in (False, True):
